@@ -32,6 +32,9 @@ def nontrivial(request, impl):
         return "0a" in parts[2] or "0d" in parts[2]
     if proto == "num":
         return parts[1].startswith("2e")
+    if proto == "sortreq":
+        # non-trivial: sorting enabled and at least two require/GetService items
+        return parts[2] == "1" and (parts[3].count(":r:") + parts[3].count(":g:")) >= 2
     if proto == "block":
         # non-trivial: a directive, a range or a semicolon is involved
         return parts[2] != "-" or parts[3] != "-" or "ignore" in parts[4] or ":1:" in parts[4]
@@ -145,3 +148,21 @@ PROPS["C09"] = {
     "trusted_base": [],
     "assumptions": ["position of a statement = byte offsets of its first and last token (full_moon positions)"],
 }
+
+SORT_RULE = ("generated top levels (seeded): 2-8 statements drawn from require / GetService locals (12 names incl. duplicates, mixed case, non-ASCII under Luau; sugar-call, multi-line and type-asserted forms), multi-name locals, other statements; blank lines, leading directive/other comments, same-line leading block comments, trailing comments, semicolons; sort option on (7/8) or off; a statement-aligned range in 1/4 of the cases. ring 2 (`sortreq`): output order of statement ids vs Model/SortReq.lean. distinct_nontrivial = requests with sorting on and >= 2 require items. ")
+
+PROPS["C12"] = {
+    "lean_modules": ["StyluaModel.Props.C12"],
+    "theorem_prefix": "C12_",
+    "required_theorems": ["C12_perm", "C12_off", "C12_partition", "C12_blocks", "C12_sorted", "C12_stable", "C12_ignored_group"],
+    "hx": [["c12"]],
+    "level": "proof",
+    "level_text": "Proof: for top levels of any length, the sorter's output is a permutation; the parts are a partition in order, homogeneous in kind; the output is part-by-part a permutation of each part with non-group parts unchanged (so only members of one group exchange places and groups never merge); each sortable group comes out ordered by NAME bytes and stably; a group with an ignored / in-region / out-of-range member is untouched; with the option off nothing moves.",
+    "level_note": "Trusted: Lean kernel; Model/SortReq.lean mirrors partition_nodes_into_groups / sort_requires and is tied by the `sortreq` correspondence (~1.1e4 requests per run); Rust's sort_by_key is assumed stable and String order byte-lexicographic (both checked by the correspondence); comment preservation is checked by the census oracle, not modelled.",
+    "technique": "Lean 4 proofs (List.Perm, mergeSort sortedness/stability) + correspondence + independent grouping oracle",
+    "rule": SORT_RULE + "ring 3: permutation; non-group statements keep their index; each group (harness's own grouping from the property text) keeps its index set, is sorted by NAME bytes stably, or is untouched when it has an ignored / out-of-range member; comment census; re-parse.",
+    "trusted_base": [],
+    "assumptions": ["only the top-level block is sorted (as documented)"],
+}
+PROPS["C09"]["hx"] = [["c08"], ["c12"]]
+PROPS["C08"]["hx"] = [["c08"], ["c12"]]
